@@ -1,64 +1,331 @@
-(* PathLaws.v — lemmas about PathModel. *)
-From Coq Require Import NArith List Bool Lia.
-From CS Require Import Sx Str PathModel.
+(* PathLaws.v — lemmas about PathModel: the helpers read through "components of a path".
+     pc cv p       the components of p (alt separators replaced, blanks dropped)
+     render cv l   the canonical string of a component list
+   normalize_path is [render (pc p)] (case-folded as the convention asks); everything else follows. *)
+From Coq Require Import NArith List Bool Lia Arith.
+From CS Require Import Sx Str StrLemmas PathModel.
 Import ListNotations.
 
-Lemma str_eqb_eq a b : str_eqb a b = true <-> a = b.
+(* ------------------------------------------------------------------ hypotheses on the case fold *)
+Record fold_ok (cv : conv) : Prop := {
+  fo_idem : forall c, cv_fold cv (cv_fold cv c) = cv_fold cv c;
+  fo_sep : forall c, cv_fold cv c = cv_sep cv <-> c = cv_sep cv;
+  fo_alt : forall a, cv_alt cv = Some a -> forall c, cv_fold cv c = a <-> c = a;
+  fo_colon : cv_win cv = true -> forall c, cv_fold cv c = 58%N <-> c = 58%N
+}.
+
+(* the fold only matters for case-insensitive conventions *)
+Definition conv_ok (cv : conv) : Prop := cv_cs cv = false -> fold_ok cv.
+
+(* ------------------------------------------------------------------ alt separators *)
+Definition rp (cv : conv) (p : str) : str :=
+  match cv_alt cv with Some a => replace_char a (cv_sep cv) p | None => p end.
+
+Definition noalt (cv : conv) (s : str) : Prop :=
+  forall a, cv_alt cv = Some a -> a <> cv_sep cv -> ~ In a s.
+
+Lemma rp_noalt cv s : noalt cv s -> rp cv s = s.
 Proof.
-  revert b; induction a as [|x a IH]; intros [|y b]; simpl; split; intros H; try congruence; try reflexivity.
-  - apply andb_true_iff in H as [H1 H2]. apply N.eqb_eq in H1. apply IH in H2. congruence.
-  - inversion H; subst. rewrite N.eqb_refl. simpl. apply IH. reflexivity.
+  unfold rp, noalt. intros H. destruct (cv_alt cv) as [a|]; [|reflexivity].
+  destruct (N.eq_dec a (cv_sep cv)) as [->|Hne]; [apply replace_char_same|].
+  apply replace_char_no. apply (H a eq_refl Hne).
 Qed.
 
-Lemma lstrip_idem c s : lstrip c (lstrip c s) = lstrip c s.
+Lemma noalt_rp cv s : noalt cv (rp cv s).
 Proof.
-  induction s as [|x s IH]; simpl; [reflexivity|].
-  destruct (N.eqb x c) eqn:E; [exact IH|]. simpl. rewrite E. reflexivity.
+  unfold rp, noalt. intros a Ha Hne. rewrite Ha. apply replace_char_out. exact Hne.
 Qed.
 
-Lemma rstrip_idem c s : rstrip c (rstrip c s) = rstrip c s.
-Proof. unfold rstrip. rewrite rev_involutive, lstrip_idem. reflexivity. Qed.
+Lemma noalt_incl cv s t : incl t s -> noalt cv s -> noalt cv t.
+Proof. intros Hi Hs a Ha Hne Hin. apply (Hs a Ha Hne). apply Hi. exact Hin. Qed.
 
-Lemma replace_char_idem a b s : replace_char a b (replace_char a b s) = replace_char a b s.
+Lemma noalt_app cv a b : noalt cv (a ++ b) <-> noalt cv a /\ noalt cv b.
 Proof.
-  unfold replace_char. rewrite map_map. apply map_ext. intros x.
-  destruct (N.eqb x a) eqn:E; [|rewrite E; reflexivity].
-  destruct (N.eqb b a) eqn:E2; [|reflexivity]. reflexivity.
+  split.
+  - intros H. split; eapply noalt_incl; try exact H; [apply incl_appl|apply incl_appr]; apply incl_refl.
+  - intros [Ha Hb] x Hx Hne Hin. apply in_app_or in Hin as [Hin|Hin]; [apply (Ha x Hx Hne Hin)|apply (Hb x Hx Hne Hin)].
 Qed.
 
-Lemma lstrip_no c s : (forall x, In x s -> x <> c) -> lstrip c s = s.
-Proof. destruct s as [|x s]; simpl; intros H; [reflexivity|]. destruct (N.eqb_spec x c); [exfalso; apply (H x); auto|reflexivity]. Qed.
+Lemma noalt_sep cv : noalt cv [cv_sep cv].
+Proof. intros a Ha Hne [H|[]]. congruence. Qed.
 
-Lemma replace_char_rstrip_comm a b s : a <> b ->
-  replace_char a b (rstrip b (replace_char a b s)) = rstrip b (replace_char a b s).
+Lemma noalt_nil cv : noalt cv [].
+Proof. intros a Ha Hne []. Qed.
+
+Lemma noalt_cons cv x s : noalt cv [x] -> noalt cv s -> noalt cv (x :: s).
+Proof. intros Hx Hs. apply (proj2 (noalt_app cv [x] s)). split; assumption. Qed.
+
+Lemma rp_app cv a b : rp cv (a ++ b) = rp cv a ++ rp cv b.
+Proof. unfold rp. destruct (cv_alt cv); [apply replace_char_app|reflexivity]. Qed.
+
+Lemma rp_idem cv s : rp cv (rp cv s) = rp cv s.
+Proof. apply rp_noalt. apply noalt_rp. Qed.
+
+Lemma rp_nil cv : rp cv [] = [].
+Proof. unfold rp. destruct (cv_alt cv); reflexivity. Qed.
+
+Lemma rp_length cv s : length (rp cv s) = length s.
+Proof. unfold rp. destruct (cv_alt cv); [apply map_length|reflexivity]. Qed.
+
+(* ------------------------------------------------------------------ nps *)
+Lemma nps_eq cv p :
+  nps cv p = if str_eqb (rp cv p) [cv_sep cv] then [cv_sep cv] else rstrip (cv_sep cv) (rp cv p).
 Proof.
-  intros Hab. unfold rstrip.
-  assert (H: forall l, (forall x, In x l -> x <> a) -> replace_char a b l = l).
-  { induction l as [|x l IH]; simpl; intros Hl; [reflexivity|].
-    destruct (N.eqb_spec x a); [exfalso; apply (Hl x); auto|]. f_equal. apply IH. intros y Hy. apply Hl. auto. }
-  apply H. intros x Hx. apply in_rev in Hx.
-  assert (Hin: forall l y, In y (lstrip b l) -> In y l).
-  { induction l as [|z l IH]; simpl; intros y Hy; [exact Hy|]. destruct (N.eqb z b); auto. }
-  apply Hin in Hx. apply in_rev in Hx. unfold replace_char in Hx. apply in_map_iff in Hx as [z [Hz _]].
-  destruct (N.eqb_spec z a); subst; auto.
+  destruct p as [|x p].
+  - rewrite rp_nil. reflexivity.
+  - unfold nps. fold (rp cv (x :: p)).
+    destruct (str_eqb_spec (rp cv (x :: p)) [cv_sep cv]) as [E|E]; [exact E|reflexivity].
+Qed.
+
+Lemma nps_noalt cv p : noalt cv (nps cv p).
+Proof.
+  rewrite nps_eq. destruct (str_eqb (rp cv p) [cv_sep cv]); [apply noalt_sep|].
+  eapply noalt_incl; [apply rstrip_incl|apply noalt_rp].
+Qed.
+
+Lemma nps_shape cv p : nps cv p = [cv_sep cv] \/ rstrip (cv_sep cv) (nps cv p) = nps cv p.
+Proof.
+  rewrite nps_eq. destruct (str_eqb (rp cv p) [cv_sep cv]); [left; reflexivity|right; apply rstrip_idem].
+Qed.
+
+Lemma nps_fix cv x : noalt cv x -> (x = [cv_sep cv] \/ rstrip (cv_sep cv) x = x) -> nps cv x = x.
+Proof.
+  intros Hn Hs. rewrite nps_eq, (rp_noalt cv x Hn).
+  destruct (str_eqb_spec x [cv_sep cv]) as [E|E]; [symmetry; exact E|].
+  destruct Hs as [Hs|Hs]; [contradiction|exact Hs].
 Qed.
 
 Lemma nps_idem cv p : nps cv (nps cv p) = nps cv p.
+Proof. apply nps_fix; [apply nps_noalt|apply nps_shape]. Qed.
+
+Lemma nps_nil cv : nps cv [] = [].
+Proof. reflexivity. Qed.
+
+Lemma nps_sep cv : nps cv [cv_sep cv] = [cv_sep cv].
+Proof. apply nps_fix; [apply noalt_sep|left; reflexivity]. Qed.
+
+(* components of a path *)
+Definition pc (cv : conv) (p : str) : list str := comps (cv_sep cv) (rp cv p).
+
+Lemma comps_nps cv p : comps (cv_sep cv) (nps cv p) = pc cv p.
 Proof.
-  unfold nps. destruct p as [|x p]; [reflexivity|].
-  set (p1 := match cv_alt cv with Some a => replace_char a (cv_sep cv) (x :: p) | None => x :: p end).
-  destruct (str_eqb p1 [cv_sep cv]) eqn:E1.
-  - apply str_eqb_eq in E1. rewrite E1.
-    destruct (cv_alt cv) as [a|]; simpl.
-    + destruct (N.eqb (cv_sep cv) a); simpl; rewrite N.eqb_refl; reflexivity.
-    + rewrite N.eqb_refl. reflexivity.
-  - destruct (rstrip (cv_sep cv) p1) as [|y q] eqn:E2; [reflexivity|].
-    rewrite <- E2.
-    assert (Hrep: match cv_alt cv with Some a => replace_char a (cv_sep cv) (rstrip (cv_sep cv) p1) | None => rstrip (cv_sep cv) p1 end = rstrip (cv_sep cv) p1).
-    { unfold p1. destruct (cv_alt cv) as [a|]; [|reflexivity].
-      destruct (N.eqb_spec a (cv_sep cv)) as [->|Hne].
-      - unfold replace_char. rewrite map_ext with (g := fun x => x); [apply map_id|]. intros z. destruct (N.eqb z (cv_sep cv)) eqn:Ez; [apply N.eqb_eq in Ez; auto|reflexivity].
-      - apply replace_char_rstrip_comm. exact Hne. }
-    rewrite Hrep. rewrite rstrip_idem.
-    destruct (str_eqb (rstrip (cv_sep cv) p1) [cv_sep cv]); reflexivity.
+  unfold pc. rewrite nps_eq. destruct (str_eqb_spec (rp cv p) [cv_sep cv]) as [E|E].
+  - rewrite E. reflexivity.
+  - apply comps_rstrip.
+Qed.
+
+Lemma pc_nps cv p : pc cv (nps cv p) = pc cv p.
+Proof. unfold pc at 1. rewrite (rp_noalt cv _ (nps_noalt cv p)). apply comps_nps. Qed.
+
+Lemma pc_noalt cv s : noalt cv s -> pc cv s = comps (cv_sep cv) s.
+Proof. intros H. unfold pc. rewrite (rp_noalt cv s H). reflexivity. Qed.
+
+Lemma comps_incl c s q : In q (comps c s) -> incl q s.
+Proof.
+  revert q. induction s as [|x s IH]; intros q Hq; simpl in Hq; [destruct Hq|].
+  destruct (N.eqb x c).
+  - apply incl_tl. apply IH. exact Hq.
+  - destruct (starts_comp c s).
+    + destruct (comps c s) as [|h t].
+      * destruct Hq as [<-|[]]. intros y [Hy|[]]. left. exact Hy.
+      * destruct Hq as [<-|Hq].
+        -- intros y [Hy|Hy]; [left; exact Hy|right; apply (IH h); [left; reflexivity|exact Hy]].
+        -- apply incl_tl. apply IH. right. exact Hq.
+    + destruct Hq as [<-|Hq].
+      * intros y [Hy|[]]. left. exact Hy.
+      * apply incl_tl. apply IH. exact Hq.
+Qed.
+
+(* a component: non-empty, no separator, no alt separator *)
+Definition gcomp (cv : conv) (q : str) : Prop := good (cv_sep cv) q /\ noalt cv q.
+
+Lemma pc_gcomp cv p : Forall (gcomp cv) (pc cv p).
+Proof.
+  unfold pc. apply Forall_forall. intros q Hq. split.
+  - pose proof (comps_good (cv_sep cv) (rp cv p)) as H. rewrite Forall_forall in H. apply H. exact Hq.
+  - eapply noalt_incl; [apply (comps_incl _ _ _ Hq)|apply noalt_rp].
+Qed.
+
+Lemma gcomp_good cv l : Forall (gcomp cv) l -> Forall (good (cv_sep cv)) l.
+Proof. apply Forall_impl. intros q [H _]. exact H. Qed.
+
+Lemma nps_gcomp cv q : gcomp cv q -> nps cv q = q.
+Proof. intros [[_ Hs] Hn]. apply nps_fix; [exact Hn|right; apply rstrip_no; exact Hs]. Qed.
+
+Lemma noalt_intercalate cv l : Forall (gcomp cv) l -> noalt cv (intercalate (cv_sep cv) l).
+Proof.
+  induction 1 as [|p l [_ Hp] Hl IH]; [apply noalt_nil|].
+  rewrite intercalate_cons. destruct l as [|q l]; [exact Hp|].
+  apply noalt_app. split; [exact Hp|]. apply noalt_cons; [apply noalt_sep|exact IH].
+Qed.
+
+(* ------------------------------------------------------------------ join *)
+(* the drive-letter test of Provider.join: win_paths and joined_path[1:2] == ':' *)
+Definition dl (cv : conv) (j : str) : bool :=
+  cv_win cv && match j with _ :: y :: _ => N.eqb y 58 | _ => false end.
+
+Definition fin (cv : conv) (j : str) : str := if dl cv j then j else add_sep cv j.
+
+Lemma join_eq cv paths :
+  join cv paths =
+  match strip_list cv (norm_list cv paths) with
+  | [] => [cv_sep cv]
+  | l => fin cv (intercalate (cv_sep cv) l)
+  end.
+Proof.
+  unfold join, fin, dl. destruct (strip_list cv (norm_list cv paths)) as [|p l]; [reflexivity|].
+  generalize (intercalate (cv_sep cv) (p :: l)). intros j.
+  destruct (cv_win cv); [|reflexivity]. cbn [andb].
+  destruct j as [|x [|y j]]; reflexivity.
+Qed.
+
+Lemma comps_add_sep cv j : comps (cv_sep cv) (add_sep cv j) = comps (cv_sep cv) j.
+Proof.
+  unfold add_sep. destruct j as [|x j]; [reflexivity|].
+  destruct (N.eqb x (cv_sep cv)); [reflexivity|apply comps_cons_sep].
+Qed.
+
+Lemma comps_fin cv j : comps (cv_sep cv) (fin cv j) = comps (cv_sep cv) j.
+Proof. unfold fin. destruct (dl cv j); [reflexivity|apply comps_add_sep]. Qed.
+
+Lemma noalt_add_sep cv j : noalt cv j -> noalt cv (add_sep cv j).
+Proof.
+  intros H. unfold add_sep. destruct j as [|x j]; [exact H|].
+  destruct (N.eqb x (cv_sep cv)); [exact H|]. apply noalt_cons; [apply noalt_sep|exact H].
+Qed.
+
+Lemma noalt_fin cv j : noalt cv j -> noalt cv (fin cv j).
+Proof. intros H. unfold fin. destruct (dl cv j); [exact H|apply noalt_add_sep; exact H]. Qed.
+
+Lemma filter_nonempty_comps c (L : list str) :
+  concat (map (comps c) (filter nonempty L)) = concat (map (comps c) L).
+Proof.
+  induction L as [|p L IH]; [reflexivity|]. simpl.
+  destruct p as [|x p]; simpl; [exact IH|]. rewrite IH. reflexivity.
+Qed.
+
+Lemma strip_list_comps cv L :
+  concat (map (comps (cv_sep cv)) (strip_list cv L)) = concat (map (comps (cv_sep cv)) L).
+Proof.
+  destruct L as [|p r]; [reflexivity|]. unfold strip_list.
+  rewrite map_app, concat_app, !filter_nonempty_comps. simpl. rewrite app_nil_r, comps_rstrip. f_equal.
+  induction r as [|q r IH]; [reflexivity|]. simpl. rewrite comps_strip, IH. reflexivity.
+Qed.
+
+Lemma norm_list_comps cv l :
+  concat (map (comps (cv_sep cv)) (norm_list cv l)) = concat (map (pc cv) l).
+Proof.
+  unfold norm_list. rewrite filter_nonempty_comps.
+  induction l as [|p l IH]; [reflexivity|]. simpl. rewrite comps_nps, IH. reflexivity.
+Qed.
+
+Lemma noalt_strip_list cv L : Forall (noalt cv) L -> Forall (noalt cv) (strip_list cv L).
+Proof.
+  intros H. destruct L as [|p r]; [constructor|]. unfold strip_list.
+  inversion H as [|p' r' Hp Hr]; subst. apply Forall_app. split.
+  - simpl. destruct (nonempty (rstrip (cv_sep cv) p)); [|constructor].
+    constructor; [|constructor]. eapply noalt_incl; [apply rstrip_incl|exact Hp].
+  - apply Forall_forall. intros q Hq. apply filter_In in Hq as [Hq _]. apply in_map_iff in Hq as [z [<- Hz]].
+    rewrite Forall_forall in Hr. eapply noalt_incl; [apply strip_incl|apply Hr; exact Hz].
+Qed.
+
+Lemma noalt_norm_list cv l : Forall (noalt cv) (norm_list cv l).
+Proof.
+  unfold norm_list. apply Forall_forall. intros q Hq. apply filter_In in Hq as [Hq _].
+  apply in_map_iff in Hq as [z [<- _]]. apply nps_noalt.
+Qed.
+
+Lemma noalt_intercalate_gen cv L : Forall (noalt cv) L -> noalt cv (intercalate (cv_sep cv) L).
+Proof.
+  induction 1 as [|p l Hp Hl IH]; [apply noalt_nil|].
+  rewrite intercalate_cons. destruct l as [|q l]; [exact Hp|].
+  apply noalt_app. split; [exact Hp|]. apply noalt_cons; [apply noalt_sep|exact IH].
+Qed.
+
+Lemma noalt_join cv l : noalt cv (join cv l).
+Proof.
+  rewrite join_eq. pose proof (noalt_strip_list cv _ (noalt_norm_list cv l)) as H.
+  destruct (strip_list cv (norm_list cv l)) as [|p r]; [apply noalt_sep|].
+  apply noalt_fin. apply noalt_intercalate_gen. exact H.
+Qed.
+
+(* the components of a join are the components of its arguments, in order *)
+Lemma pc_join cv l : pc cv (join cv l) = concat (map (pc cv) l).
+Proof.
+  rewrite (pc_noalt cv _ (noalt_join cv l)). rewrite join_eq.
+  rewrite <- norm_list_comps, <- strip_list_comps.
+  destruct (strip_list cv (norm_list cv l)) as [|p r] eqn:E.
+  - simpl. rewrite N.eqb_refl. reflexivity.
+  - rewrite comps_fin. apply comps_intercalate.
+Qed.
+
+(* ------------------------------------------------------------------ render *)
+Definition render (cv : conv) (l : list str) : str :=
+  match l with [] => [cv_sep cv] | _ => fin cv (intercalate (cv_sep cv) l) end.
+
+Lemma strip_list_good cv l : Forall (good (cv_sep cv)) l -> strip_list cv l = l.
+Proof.
+  intros H. destruct l as [|p r]; [reflexivity|]. unfold strip_list.
+  inversion H as [|p' r' [Hp1 Hp2] Hr]; subst.
+  rewrite rstrip_no by exact Hp2. simpl. destruct p as [|x p]; [contradiction|]. simpl. f_equal.
+  induction Hr as [|q r [Hq1 Hq2] Hr IH]; [reflexivity|]. simpl.
+  rewrite strip_no by exact Hq2. destruct q as [|y q]; [contradiction|]. simpl. f_equal. apply IH.
+  constructor; [split; assumption|exact Hr].
+Qed.
+
+Lemma norm_list_gcomp cv l : Forall (gcomp cv) l -> norm_list cv l = l.
+Proof.
+  unfold norm_list. induction 1 as [|p l Hp Hl IH]; [reflexivity|]. simpl.
+  rewrite (nps_gcomp cv p Hp). destruct Hp as [[Hp1 _] _]. destruct p; [contradiction|]. simpl. f_equal. exact IH.
+Qed.
+
+Lemma join_gcomp cv l : Forall (gcomp cv) l -> join cv l = render cv l.
+Proof.
+  intros H. rewrite join_eq, (norm_list_gcomp cv l H), (strip_list_good cv l (gcomp_good cv l H)).
+  destruct l; reflexivity.
+Qed.
+
+Lemma noalt_render cv l : Forall (gcomp cv) l -> noalt cv (render cv l).
+Proof. intros H. rewrite <- join_gcomp by exact H. apply noalt_join. Qed.
+
+Lemma pc_render cv l : Forall (gcomp cv) l -> pc cv (render cv l) = l.
+Proof.
+  intros H. rewrite (pc_noalt cv _ (noalt_render cv l H)). unfold render.
+  destruct l as [|p r]; [simpl; rewrite N.eqb_refl; reflexivity|].
+  rewrite comps_fin. apply comps_intercalate_good. apply gcomp_good. exact H.
+Qed.
+
+(* the pieces of re.split on the separator of an nps-normal string are already components *)
+Lemma split_runs_aux_all (P : N -> Prop) c s cur b :
+  (forall x, In x cur -> P x) -> (forall x, In x s -> x <> c -> P x) ->
+  Forall (fun q => forall x, In x q -> P x) (split_runs_aux c s cur b).
+Proof.
+  revert cur b. induction s as [|x s IH]; intros cur b Hc Hs; simpl.
+  - constructor; [|constructor]. intros y Hy. apply in_rev in Hy. apply Hc. exact Hy.
+  - assert (Hs' : forall y, In y s -> y <> c -> P y) by (intros y Hy; apply Hs; right; exact Hy).
+    destruct (N.eqb_spec x c) as [->|Hx].
+    + destruct b; [apply IH; assumption|]. constructor; [|apply IH; [intros y []|exact Hs']].
+      intros y Hy. apply in_rev in Hy. apply Hc. exact Hy.
+    + apply IH; [|exact Hs']. intros y [<-|Hy]; [apply Hs; [left; reflexivity|exact Hx]|apply Hc; exact Hy].
+Qed.
+
+Lemma norm_list_split_runs cv s : noalt cv s ->
+  norm_list cv (split_runs (cv_sep cv) s) = comps (cv_sep cv) s.
+Proof.
+  intros Hn. rewrite <- split_runs_comps. unfold norm_list. f_equal.
+  rewrite <- (map_id (split_runs (cv_sep cv) s)) at 2. apply map_ext_in. intros q Hq.
+  apply nps_fix.
+  - intros a Ha Hne Hin.
+    pose proof (split_runs_aux_all (fun x => x <> a) (cv_sep cv) s [] false) as H.
+    rewrite Forall_forall in H. refine (H _ _ q Hq a Hin eq_refl).
+    + intros x [].
+    + intros x Hx _ ->. apply (Hn a Ha Hne Hx).
+  - right. apply rstrip_no. pose proof (split_runs_nosep (cv_sep cv) s) as H.
+    rewrite Forall_forall in H. apply H. exact Hq.
+Qed.
+
+Lemma join_split_runs cv p : join cv (split_runs (cv_sep cv) (nps cv p)) = render cv (pc cv p).
+Proof.
+  rewrite join_eq, (norm_list_split_runs cv _ (nps_noalt cv p)), comps_nps.
+  rewrite (strip_list_good cv _ (gcomp_good cv _ (pc_gcomp cv p))). destruct (pc cv p); reflexivity.
 Qed.
